@@ -61,7 +61,13 @@ func (p *Probe) ServeHTTP(w http.ResponseWriter, r *http.Request, next caddyhttp
 				e = "0"
 			}
 		}
-		rec.events = append(rec.events, event{p.ID, r.URL.Path, e})
+		path := r.URL.Path
+		if r.RequestURI != r.URL.RequestURI() {
+			// the request line and the parsed URL disagree (never the case on the unchanged tree:
+			// the rewrite probe sets both, Server.ServeHTTP restores both)
+			path += "!uri=" + r.RequestURI
+		}
+		rec.events = append(rec.events, event{p.ID, path, e})
 	}
 	switch p.Kind {
 	case "pass":
@@ -92,6 +98,19 @@ type ErrMatcher2 struct {
 	Status int `json:"status"`
 }
 
+// LegacyFalse / LegacyTrue implement only the deprecated RequestMatcher interface.
+type LegacyFalse struct{}
+type LegacyTrue struct{}
+
+func (LegacyFalse) CaddyModule() caddy.ModuleInfo {
+	return caddy.ModuleInfo{ID: "http.matchers.verif_c05_l0", New: func() caddy.Module { return new(LegacyFalse) }}
+}
+func (LegacyTrue) CaddyModule() caddy.ModuleInfo {
+	return caddy.ModuleInfo{ID: "http.matchers.verif_c05_l1", New: func() caddy.Module { return new(LegacyTrue) }}
+}
+func (*LegacyFalse) Match(*http.Request) bool { return false }
+func (*LegacyTrue) Match(*http.Request) bool  { return true }
+
 func (ErrMatcher0) CaddyModule() caddy.ModuleInfo {
 	return caddy.ModuleInfo{ID: "http.matchers.verif_c05_e0", New: func() caddy.Module { return new(ErrMatcher0) }}
 }
@@ -120,6 +139,8 @@ var (
 	_ caddyhttp.RequestMatcherWithError = (*ErrMatcher0)(nil)
 	_ caddyhttp.RequestMatcherWithError = (*ErrMatcher1)(nil)
 	_ caddyhttp.RequestMatcher          = (*ErrMatcher2)(nil)
+	_ caddyhttp.RequestMatcher          = (*LegacyFalse)(nil)
+	_ caddyhttp.RequestMatcher          = (*LegacyTrue)(nil)
 )
 
 // ---------------------------------------------------------------- config JSON
@@ -147,6 +168,8 @@ func setJSON(s []*matcher) obj {
 			}
 		case 'e':
 			o["verif_c05_e"+strconv.Itoa(m.ekind)] = obj{"status": m.status}
+		case 'l':
+			o["verif_c05_l"+strconv.Itoa(m.ekind)] = obj{}
 		case 'n':
 			o["not"] = setsJSON(m.sets)
 		}
@@ -234,6 +257,8 @@ func base() (caddy.Context, error) {
 		caddy.RegisterModule(ErrMatcher0{})
 		caddy.RegisterModule(ErrMatcher1{})
 		caddy.RegisterModule(ErrMatcher2{})
+		caddy.RegisterModule(LegacyFalse{})
+		caddy.RegisterModule(LegacyTrue{})
 		dir, err := os.MkdirTemp("/verif/.run", "c05-data-")
 		if err != nil {
 			baseErr = err
@@ -289,6 +314,10 @@ func implKind(m any) int {
 		return 6
 	case *caddyhttp.MatchNot:
 		return 7
+	case *LegacyFalse:
+		return 8
+	case *LegacyTrue:
+		return 9
 	}
 	return -1
 }
@@ -383,7 +412,17 @@ type observed struct {
 
 // serveReal provisions the tree as a real http app and serves one request through
 // Server.ServeHTTP.
-func serveReal(rs []*route, hasErrs bool, errs []*route, q request) (obs observed, err error) {
+func serveReal(rs []*route, hasErrs bool, errs []*route, q request) (observed, error) {
+	obs, err := serveSeq(rs, hasErrs, errs, []request{q})
+	if err != nil {
+		return observed{}, err
+	}
+	return obs[0], nil
+}
+
+// serveSeq provisions the tree once and serves the requests one after the other on the same
+// server.
+func serveSeq(rs []*route, hasErrs bool, errs []*route, qs []request) (obs []observed, err error) {
 	b, err := base()
 	if err != nil {
 		return obs, err
@@ -406,15 +445,19 @@ func serveReal(rs []*route, hasErrs bool, errs []*route, q request) (obs observe
 			return obs, err
 		}
 	}
-	req := httptest.NewRequest(methods[q.method], "http://"+hosts[q.host]+paths[q.path], nil)
-	if q.hdr > 0 {
-		req.Header.Set(hdrName, hdrVals[q.hdr])
+	for _, q := range qs {
+		req := httptest.NewRequest(methods[q.method], paths[q.path], nil)
+		req.Host = hosts[q.host]
+		if q.hdr > 0 {
+			req.Header.Set(hdrName, hdrVals[q.hdr])
+		}
+		rec := &recorder{}
+		req = req.WithContext(context.WithValue(req.Context(), traceKey{}, rec))
+		w := &respWriter{h: http.Header{}}
+		srv.ServeHTTP(w, req)
+		obs = append(obs, observed{events: rec.events, codes: w.codes, writes: w.writes})
 	}
-	rec := &recorder{}
-	req = req.WithContext(context.WithValue(req.Context(), traceKey{}, rec))
-	w := &respWriter{h: http.Header{}}
-	srv.ServeHTTP(w, req)
-	return observed{events: rec.events, codes: w.codes, writes: w.writes}, nil
+	return obs, nil
 }
 
 func pathIndex(p string) string {
